@@ -317,6 +317,8 @@ func WriteEvidence(path string, p *Program, rep *PropertyReport, spec *PropertyS
 		"functions_excluded":    p.Excluded,
 		"excluded_files":        p.ExcludedFiles,
 		"exclusion_criterion":   "functions declared in a file that imports package testing (test scaffolding compiled into the package)",
+		"dead_unexported":       p.DeadDeclared,
+		"dead_criterion":        "unexported declared methods that no non-test code of the module references and whose receiver type is never converted to an interface: callable from *_test.go only, not analysed",
 		"blocks_analysed":       blocks,
 		"instructions_analysed": instrs,
 		"no_return_functions":   p.NoReturnFuncs(),
